@@ -148,7 +148,6 @@ void emit_event(Rng &r, int kind, int cl, int ctx, json &steps, const json &sche
 
 json generate(uint64_t seed, uint64_t idx, int tier)
 {
-	(void)idx;
 	Rng r(seed);
 	json plan;
 	json schema = schema8();
@@ -168,6 +167,15 @@ json generate(uint64_t seed, uint64_t idx, int tier)
 	for (int i = 0; i < NEVENTS; i++)
 		totw += EVENTS[i].weight;
 	json kinds = json::array();
+	// thorough tier: every history of length 1 and 2 over the event kinds is enumerated first (exhaustive up to that
+	// bound, as the quantifier asks); longer histories are sampled
+	std::vector<int> forced;
+	if (tier && idx < (uint64_t)NEVENTS)
+		forced = {(int)idx};
+	else if (tier && idx < (uint64_t)NEVENTS + (uint64_t)NEVENTS * NEVENTS)
+		forced = {(int)((idx - NEVENTS) / NEVENTS), (int)((idx - NEVENTS) % NEVENTS)};
+	if (!forced.empty())
+		len = (int)forced.size();
 	for (int i = 0; i < len; i++) {
 		int pick = (int)r.below(totw), kind = 0;
 		for (; kind < NEVENTS; kind++) {
@@ -175,6 +183,8 @@ json generate(uint64_t seed, uint64_t idx, int tier)
 				break;
 			pick -= EVENTS[kind].weight;
 		}
+		if (!forced.empty())
+			kind = forced[i];
 		int cl = (int)r.below(nclients), c = (int)r.below(nctx);
 		emit_event(r, kind, cl, c, steps, schema);
 		kinds.push_back(EVENTS[kind].name);
@@ -368,7 +378,8 @@ Property P = [] {
 	p.rule = "seeded histories of 1..6 prior events (24 kinds: accepted parses via buffer/stream/file+include, parses ending inside \"..\", '..', /*..*/, "
 		 "trailing backslash, syntax errors in list / function arguments / nested section, error inside an included file at depth 1..3, missing include, "
 		 "include depth exhausted, self-include, range failures via parser/setopt/setmulti, bad escape, unknown option, validator veto, free+re-init) over 1-2 clients "
-		 "x 1-2 contexts, followed by 2-4 probes from a fixed set of 9; distinct = distinct event-kind sequences (the history), all non-trivial";
+		 "x 1-2 contexts, followed by 2-4 probes from a fixed set of 9; in the thorough tier all 24 + 24*24 histories of length 1 and 2 are enumerated first, longer ones are sampled; "
+		 "distinct = distinct event-kind sequences (the history), all non-trivial";
 	p.assumptions = {"the probe set and event texts are fixed by the generator; outcomes compared are return code, diagnostics (file,line) and the canonical dump",
 			 "O-scrub resets the scanner object's .data/.bss, cfg_yylval and errno between API calls; a correct library cannot observe that"};
 	p.probes = {"parse_begun_outside_INITIAL", "parse_failed_inside_included_file", "two_clients_interleaved"};
